@@ -537,9 +537,12 @@ macro_rules! per_crate {
             }
 
             /// open `bytes` with this crate, dump the given tables (sorted by name), run check_integrity
-            pub fn read_back(bytes: Vec<u8>, decls: &[(String, usize)]) -> Result<(String, String), String> {
+            /// returns (contents, check_integrity result, did the reader grow the file while opening it)
+            pub fn read_back(bytes: Vec<u8>, decls: &[(String, usize)]) -> Result<(String, String, bool), String> {
+                let len0 = bytes.len();
                 let be = RecBackend::with_data(bytes);
                 let mut db = $c::Database::builder().create_with_backend(Be(be.handle())).map_err(|e| format!("open: {e}"))?;
+                let grew = be.0.lock().unwrap().data.len() > len0;
                 let mut out = String::new();
                 {
                     let txn = db.begin_read().map_err(|e| e.to_string())?;
@@ -561,7 +564,7 @@ macro_rules! per_crate {
                     Ok(b) => format!("Ok({b})"),
                     Err(e) => format!("Err({e})"),
                 };
-                Ok((out, integ))
+                Ok((out, integ, grew))
             }
 
             pub struct Sp {
